@@ -384,7 +384,7 @@ def r15_4(ctx: Ctx):
             lc = ddefs[lc.id][0]
         if isinstance(lc, ast.Call) and norm(lc.func) in ("list", "np.array") and len(lc.args) == 1:
             lc = lc.args[0]
-        if isinstance(lc, (ast.ListComp, ast.GeneratorExp)) and len(lc.generators) == 1 and canon(lc.generators[0].iter, ddefs).endswith(".tree.all_nodes()") and isinstance(lc.generators[0].target, ast.Name):
+        if isinstance(lc, (ast.ListComp, ast.GeneratorExp)) and len(lc.generators) == 1 and canon(lc.generators[0].iter, ddefs).endswith((".tree.all_nodes()", ".tree.all_nodes_itr()")) and isinstance(lc.generators[0].target, ast.Name):
             nv = lc.generators[0].target.id
             dist = (f"{nv}.data['distance']", f'{nv}.data["distance"]')
             conds = [canon(c) for c in lc.generators[0].ifs]
@@ -406,6 +406,51 @@ def r15_4(ctx: Ctx):
     rv = rets[0].value if len(rets) == 1 else None
     while isinstance(rv, ast.Name) and len(defs.get(rv.id, [])) == 1:
         rv = defs[rv.id][0]
+    # vectorised cut: [nodes[i] for i in np.flatnonzero(np.array([n.data['distance'] for n in nodes]) OP threshold)]
+    if isinstance(rv, ast.ListComp) and len(rv.generators) == 1 and not rv.generators[0].ifs and isinstance(rv.generators[0].target, ast.Name) and isinstance(rv.elt, ast.Subscript) and canon(rv.elt.slice) == rv.generators[0].target.id:
+        it = rv.generators[0].iter
+        hops = 0
+        while isinstance(it, ast.Name) and len(defs.get(it.id, [])) == 1 and hops < 3:
+            it = defs[it.id][0]
+            hops += 1
+        mask = None
+        if isinstance(it, ast.Call) and norm(it.func).split(".")[-1] in ("flatnonzero", "nonzero", "argwhere") and len(it.args) == 1:
+            mask = it.args[0]
+        elif isinstance(it, ast.Subscript) and isinstance(it.value, ast.Call) and norm(it.value.func).split(".")[-1] in ("where", "nonzero") and len(it.value.args) == 1 and canon(it.slice) == "0":
+            mask = it.value.args[0]
+        while isinstance(mask, ast.Name) and len(defs.get(mask.id, [])) == 1:
+            mask = defs[mask.id][0]
+        if isinstance(mask, ast.Compare) and len(mask.ops) == 1:
+            sides = [mask.left, mask.comparators[0]]
+            res = []
+            for sd in sides:
+                e = sd
+                while isinstance(e, ast.Name) and len(defs.get(e.id, [])) == 1:
+                    e = defs[e.id][0]
+                if isinstance(e, ast.Call) and norm(e.func).split(".")[-1] in ("array", "asarray", "fromiter") and e.args:
+                    e = e.args[0]
+                if isinstance(e, (ast.ListComp, ast.GeneratorExp)) and len(e.generators) == 1 and not e.generators[0].ifs and canon(e.generators[0].iter, defs) == canon(rv.elt.value, defs):
+                    res.append(e.elt)
+                else:
+                    res.append(None)
+            if (res[0] is None) != (res[1] is None):
+                # one side is the per-node distance column over the same node sequence: read it as the element-wise condition
+                l_ = res[0] if res[0] is not None else sides[0]
+                r_ = res[1] if res[1] is not None else sides[1]
+                nv = (res[0] if res[0] is not None else res[1])
+                synth = ast.Compare(left=l_, ops=mask.ops, comparators=[r_])
+                g0 = None
+                for sd, r0 in zip(sides, res):
+                    if r0 is not None:
+                        e = sd
+                        while isinstance(e, ast.Name) and len(defs.get(e.id, [])) == 1:
+                            e = defs[e.id][0]
+                        if isinstance(e, ast.Call):
+                            e = e.args[0]
+                        g0 = e.generators[0]
+                rv = ast.ListComp(elt=ast.Name(id=g0.target.id, ctx=ast.Load()), generators=[ast.comprehension(target=g0.target, iter=g0.iter, ifs=[synth], is_async=0)])
+                ast.copy_location(rv, rets[0])
+                ast.fix_missing_locations(rv)
     if isinstance(rv, ast.ListComp) and len(rv.generators) == 1 and len(rv.generators[0].ifs) == 1:
         from .c08 import _strip_not
 
@@ -452,4 +497,32 @@ def r15_5(ctx: Ctx):
     return out
 
 
-RULES = [("R15.1", r15_1, 4), ("R15.2", r15_2, 1), ("R15.3", r15_3, 5), ("R15.4", r15_4, 4), ("R15.5", r15_5, 2)]
+def r15_7(ctx: Ctx):
+    """R15.7 the clustering never identifies individuals through `==`: Individual.__eq__ is fitness equivalence, so a membership
+    test / count / remove on a list of individuals (or a set / dict keyed by them) treats two different individuals
+    with tied fitness as one - a seed tied with an already collected seed is dropped."""
+    from .c13 import _is_individual, _is_individual_collection
+
+    obs = []
+    nbc = ctx.prog.cls("NearestBetterClustering")
+    n = 0
+    for m in nbc.methods.values():
+        n += 1
+        hit = None
+        for x in body_walk(m.node):
+            if isinstance(x, ast.Compare) and len(x.ops) == 1 and isinstance(x.ops[0], (ast.In, ast.NotIn)):
+                if _is_individual(ctx, m, x.left) and (_is_individual_collection(ctx, m, x.comparators[0])):
+                    hit = hit or x
+                elif isinstance(x.left, ast.Subscript) and isinstance(x.left.slice, ast.Constant) and x.left.slice.value == "individual" and _is_individual_collection(ctx, m, x.comparators[0]):
+                    hit = hit or x
+            if isinstance(x, ast.Call) and isinstance(x.func, ast.Attribute) and x.func.attr in ("count", "remove") and len(x.args) == 1 and _is_individual_collection(ctx, m, x.func.value):
+                # (`.index(ind)` on the best-first list is how the strictly better prefix is found: R15.3)
+                hit = hit or x
+        if hit is not None:
+            obs.append(ctx.ob("R15.7", m, hit, status=VIOLATION, detail=f"{m.short}: `{norm(hit)[:80]}` looks an individual up by `==`, which for individuals is equality of FITNESS: a different individual with the same fitness counts as already present (tied cluster seeds are merged / the wrong one is found)", construct=f"{m.short}:eq-lookup"))
+        else:
+            obs.append(ctx.ob("R15.7", m, m.node, detail=f"{m.short}: no lookup of individuals by `==`", construct=f"{m.short}:eq-lookup", trivial=True))
+    return obs
+
+
+RULES = [("R15.1", r15_1, 4), ("R15.2", r15_2, 1), ("R15.3", r15_3, 5), ("R15.4", r15_4, 4), ("R15.5", r15_5, 2), ("R15.7", r15_7, 5)]
